@@ -47,6 +47,12 @@ type suFan struct {
 	// panicAttachUs > 0: the fan's driver panics in AttachFanRpmCurveData that many microseconds (real time) after the
 	// call began (a fault on the start-up path of ONE controller, outside any analysis of its own)
 	panicAttachUs int
+	// cycles: regulation cycles (curve evaluations) a start runs before it is stopped (default 1); rival: from the first
+	// regulation cycle on something else moves the PWM register after every write of fan2go's, so every cycle reads back a
+	// value the map does not predict (a BIOS overriding the fan, a firmware that applies PWM gradually)
+	cycles    int
+	rival     bool
+	evalCount int64
 }
 
 // panicFan is a fan whose driver faults (panics) when the measured curve is attached
@@ -93,10 +99,13 @@ type suCurve struct {
 
 func (c *suCurve) GetId() string { return c.id }
 func (c *suCurve) Evaluate() (int, error) {
-	c.once.Do(func() {
+	n := atomic.AddInt64(&c.fan.evalCount, 1)
+	if n == 1 {
 		suRecord(c.fan.id, "eval")
-		close(c.done)
-	})
+	}
+	if n >= int64(c.fan.cycles) {
+		c.once.Do(func() { close(c.done) })
+	}
 	return 128, nil
 }
 func (c *suCurve) CurrentValue() int { return 128 }
@@ -121,7 +130,12 @@ func suNewFan(a kv) *suFan {
 		if f.drift > 0 && strings.HasPrefix(e, "pwm=") {
 			atomic.StoreInt64(&f.driftLeft, f.drift)
 		}
+		if f.rival && atomic.LoadInt64(&f.evalCount) > 0 && strings.HasPrefix(e, "pwm=") {
+			f.dev.Pwm = (f.dev.Pwm + 3) % 256
+		}
 	}
+	f.cycles = a.int("cycles", 1)
+	f.rival = a.bool("rival", false)
 	f.drift = int64(a.int("drift", 0))
 	f.panicAttachUs = a.int("panicattach_us", 0)
 	if q := a.int("quant", 0); q > 1 {
@@ -311,6 +325,7 @@ func suRunOne(f *suFan, ctx context.Context, cancelAfterEval bool) (res string, 
 }
 
 func suPrepare(f *suFan) *suPrepared {
+	atomic.StoreInt64(&f.evalCount, 0)
 	fan := f.newFan()
 	if f.panicAttachUs > 0 {
 		fan = &panicFan{Fan: fan, after: time.Duration(f.panicAttachUs) * time.Microsecond}
